@@ -119,6 +119,21 @@ func (P) Exec(line string) string {
 			return "bad-op"
 		}
 		return runInv(v[0], v[1], v[2], v[3])
+	case "push":
+		// C18 push <ours> <theirs> <ops>
+		if len(f) != 5 {
+			return "bad-op"
+		}
+		o, err1 := strconv.ParseUint(f[2], 10, 31)
+		t, err2 := strconv.ParseUint(f[3], 10, 31)
+		if err1 != nil || err2 != nil || o <= 60000 || t <= 60000 {
+			return "bad-op"
+		}
+		var ops []string
+		if f[4] != "-" {
+			ops = strings.Split(f[4], ",")
+		}
+		return runPush(uint32(o), uint32(t), ops)
 	case "racerun":
 		// C18 racerun build=.. races=.. mism=..: result of the -race build of this
 		// harness, obtained in Generate (thorough tier).
@@ -449,6 +464,32 @@ func (P) Generate(g *core.Gen) {
 		k := r.Intn(nn/2 + 1)
 		d := r.Intn(nn - k + 1)
 		g.Case("inv-trickle", true, fmt.Sprintf("C18 inv %d %d %d %d", nn, k, d, r.Intn(5)))
+	}
+	// 2e. Push* entry points of a ready peer.
+	for i, n := 0, g.N(120, 3000); i < n; i++ {
+		vs := []int64{60001, 70001, 70002, 70015, 70016}
+		ours, theirs := vs[r.Intn(len(vs))], vs[r.Intn(len(vs))]
+		if r.Bool() {
+			ours = 70016
+		}
+		var ops []string
+		for j, m := 0, 1+r.Intn(10); j < m; j++ {
+			switch r.Intn(8) {
+			case 0, 1:
+				ops = append(ops, fmt.Sprintf("gb:%d:%d", r.Intn(3), 1+r.Intn(2)))
+			case 2, 3:
+				ops = append(ops, fmt.Sprintf("gh:%d:%d", r.Intn(3), 1+r.Intn(2)))
+			case 4:
+				ops = append(ops, fmt.Sprintf("addr:%d", r.Pick(0, 1, 2, 999, 1000, 1001, 1500)))
+			case 5:
+				ops = append(ops, fmt.Sprintf("a2:%d", r.Pick(0, 1, 999, 1000)))
+			case 6:
+				ops = append(ops, fmt.Sprintf("rej:%d", r.Pick(1, 16, 17, 18, 64)))
+			default:
+				ops = append(ops, fmt.Sprintf("qe:%d", 1+r.Intn(1000)))
+			}
+		}
+		g.Case("push-api", true, fmt.Sprintf("C18 push %d %d %s", ours, theirs, strings.Join(ops, ",")))
 	}
 	// 3. messages queued while the handshake is still in progress.
 	for _, dir := range []string{"in", "out"} {
